@@ -4,7 +4,7 @@ from __future__ import annotations
 import itertools
 from typing import Any, Optional
 
-from ..absint import AObj, EnumVal
+from ..absint import AObj, AbsRaise, EnumVal
 from ..antlrstubs import Console, install_antlr
 from ..codec import PATH, run_reader
 from ..core import AnalysisError, Ctx, loc
@@ -21,6 +21,18 @@ OPS = {"AND": "&", "OR": "|", "IMPLIES": "=>", "EQUIVALENCE": "<=>", "NOT": "!",
 PREC = {"EQUIVALENCE": 1, "IMPLIES": 2, "OR": 3, "AND": 4, "NOT": 5}
 
 
+_KEYWORDS: list[str] = []
+
+
+def _uvl_keywords() -> list[str]:
+    """Words the language reserves: the alphabetic literals of the generated lexer, plus the Boolean literals."""
+    if not _KEYWORDS:
+        from uvl.UVLPythonLexer import UVLPythonLexer
+        _KEYWORDS.extend(x.strip("'") for x in UVLPythonLexer.literalNames if x.strip("'").isalpha())
+        _KEYWORDS.extend(["true", "false"])
+    return _KEYWORDS
+
+
 class RefEmitter:
     """Independent reference emitter of UVL text from an abstract model (UVL language definition:
     indentation blocks, group keywords, `cardinality [a..b]`, `{attributes}`, constraint syntax)."""
@@ -33,7 +45,8 @@ class RefEmitter:
     def ident(self, name: str) -> str:
         if "." in name:
             return ".".join(self.ident(p) for p in name.split("."))
-        bare = name.isascii() and name[:1].isalpha() and all(c.isalnum() or c == "_" for c in name)
+        bare = name.isascii() and name[:1].isalpha() and all(c.isalnum() or c == "_" for c in name) and \
+            name not in _uvl_keywords()
         return name if bare and not self.quote_all else f'"{name}"'
 
     def value(self, v: Any) -> str:
@@ -299,6 +312,70 @@ def check(pm: ProgramModel, ctx: Ctx) -> None:
                 ctx.check(not ds and not wfb, "C04-DENOTES", label, where,
                           f"model read from a larger document ({what}) equals the model it was emitted from",
                           bad=f"larger document ({what}): {(ds or wfb or [('', '')])[0][1]}")
+        # every two-way combination of position, name shape, decoration, attribute kind, constraint role and operator on
+        # one feature, as documents of the reference emitter
+        from ..interact import Fragment, assignments, build
+        from ..absint import EnumVal
+        from .c01 import UVL_NAMES
+        ftm = pm.enum_members(pm.cls("FeatureType"))
+        pfr = Fragment(names={k_: v_ for k_, v_ in UVL_NAMES.items() if not v_.startswith("'")},
+                       ops=("AND", "OR", "IMPLIES", "EQUIVALENCE"),
+                       types={k_: EnumVal("FeatureType", k_, v_) for k_, v_ in ftm.items() if k_ != "BOOLEAN"},
+                       fcards=((0, 3), (1, -1), (2, 10)), numeric=True,
+                       values={"none": None, "true": True, "int": 7, "negative-int": -3, "float": 2.5, "str": "some text",
+                               "numeric-string": "10", "list": [1, 2.5, "a"], "nested-map": {"k": 1, "inner": {"x": "y"}},
+                               "empty-list": []})
+        pms, ptotal, pleft = assignments(pfr)
+        for i_, asg in enumerate(pms):
+            pm_, what = build(mb, pfr, asg, i_)
+            vfs = VFS()
+            vfs.files[PATH] = RefEmitter(quote_all=bool(i_ % 2), parens=bool(i_ % 3 == 0)).emit(pm_)
+            r = run_reader(pm, "UVLReader", vfs, setup=install_antlr)
+            label = f"pairwise:{i_:02d}"
+            if r["raise"]:
+                ctx.violation("C04-DENOTES", f"{label}:raises", r["raise"][1] or where,
+                              f"valid document ({what}) is rejected: {r['raise'][0]}")
+                continue
+            ds = diff(describe(pm_), describe(r["model"]), ctc_names=False, ctc_node_compare=equivalent_or_identical)
+            wfb = wellformed(r["model"])
+            ctx.check(not ds and not wfb, "C04-DENOTES", label, where,
+                      f"model read from the reference document of {what.split(':')[0]} equals the model it was emitted from",
+                      bad=f"{what}: {(ds or wfb or [('', '')])[0][1]}")
+        ctx.analysed["C04:pairwise"] = {"models": len(pms), "pairs": ptotal, "pairs-not-covered": pleft}
+        # one reader object, asked again after the file was replaced by another document / by a broken one --------------
+        from ..iostubs import VFS as _VFS
+        from ..codec import new_interp
+        from ..absint import AbsMutation
+        rcls = pm.cls("UVLReader")
+        trm = pm.method(rcls, "transform")
+        small = pms and build(mb, pfr, pms[0], 0)[0]
+        if small:
+            vfs = _VFS()
+            vfs.put(PATH, RefEmitter().emit(ref))
+            it_r = new_interp(pm, vfs)
+            install_antlr(it_r, vfs)
+            try:
+                rd = it_r.eval_call_class(rcls, [PATH])
+                it_r.call(trm, [rd])
+                vfs.put(PATH, RefEmitter().emit(small))
+                second = it_r.call(trm, [rd])
+                ds = diff(describe(small), describe(second), ctc_names=False, ctc_node_compare=equivalent_or_identical)
+                ctx.check(not ds, "C04-DENOTES", "same-reader-object:file-replaced", where,
+                          "a reader object asked again after its file was replaced reads the document that is there now",
+                          bad=f"the reader object, asked again after the file was replaced, returns a model that the new "
+                              f"document does not denote: {ds[0][1] if ds else ''}")
+                vfs.put(PATH, NEGATIVES[sorted(NEGATIVES)[0]])
+                try:
+                    it_r.call(trm, [rd])
+                    ctx.violation("C04-ERRORS", "same-reader-object:file-broken", where,
+                                  "the reader object, asked again after its file was replaced by an invalid document, returns "
+                                  "a model instead of reporting the syntax error")
+                except (AbsRaise, AbsMutation):
+                    ctx.ok("C04-ERRORS", "same-reader-object:file-broken", where,
+                           "an invalid document is reported also by a reader object that read a valid one before")
+            except (AbsRaise, AbsMutation) as exc:
+                ctx.info("C04-DENOTES", "same-reader-object:file-replaced", where,
+                         f"a reader object asked to transform() a second time declines: {exc.what}")
         # negatives -------------------------------------------------------------------------------
         for key, text in NEGATIVES.items():
             vfs = VFS()
